@@ -68,8 +68,12 @@ def conforms(kind, v, env):
         if not isinstance(v, set):
             return False, "container"
         return all(_int(x) for x in v), "element"
-    if kind == "leaf":
-        return _leaf(v, env)
+    if kind == "labels":
+        if not isinstance(v, set):
+            return False, "container"
+        return all(isinstance(x, str) for x in v), "element"
+    if kind in ("leaf", "fleaf"):
+        return _leaf(v, env) if kind == "leaf" else (isinstance(v, env.FLeaf), "value")
     if kind == "kids":
         if not isinstance(v, list):
             return False, "container"
